@@ -380,7 +380,8 @@ def without(xs, x):
 
 
 def joins(ends, a, b):
-    if len(ends) != 2:
+    """the link's two ends (v1, v2) are a and b; further vertices it may name do not matter"""
+    if len(ends) < 2:
         return False
     return ((ends[0] is a) and (ends[1] is b)) or ((ends[0] is b) and (ends[1] is a))
 
@@ -458,7 +459,9 @@ def spec_unlink(pool, plinks, pre_l, pre_e, a, b, destroy, result):
         j = j + 1
     ok = True
     for l in joining:
-        ok = ok and (l._vertices == [])
+        # both ends are detached; any further vertex the link names (and that vertex's list) is left alone
+        j = index_of(plinks, l)
+        ok = ok and (l._vertices == without(without(pre_e[j], a), b))
     i = 0
     while i < len(pool):
         v = pool[i]
